@@ -796,6 +796,11 @@ func (fv *FuncVC) loopHeader(fr *Frame, h *ssa.BasicBlock, cur *State, reach str
 		nv := fv.m.FreshVal(phiName(phi), phi.Type())
 		fr.vals[phi] = nv
 		fv.typeFacts(nv, cur, reach)
+		// auto-invariant of a counter: an integer variable that every back edge leaves unchanged or increases by a
+		// non-negative constant never drops below its value at loop entry (integers are mathematical, A1)
+		if monotoneCounter(h, phi) && len(nv.C) == 1 && len(entryPhi[phi].C) == 1 {
+			fv.ctx.Assume(fmt.Sprintf("(>= %s %s)", nv.C[0], entryPhi[phi].C[0]))
+		}
 		// auto-invariant for range index: monotone lower bound
 		if phi.Comment == "rangeindex" {
 			fv.ctx.Assume(fmt.Sprintf("(>= %s %s)", nv.C[0], entryPhi[phi].C[0]))
@@ -830,6 +835,34 @@ func (fv *FuncVC) loopHeader(fr *Frame, h *ssa.BasicBlock, cur *State, reach str
 		}
 	}
 	return cur
+}
+
+// monotoneCounter: phi is an integer header phi whose back-edge operands are phi itself or phi + c with a constant c >= 0
+func monotoneCounter(h *ssa.BasicBlock, phi *ssa.Phi) bool {
+	bt, ok := phi.Type().Underlying().(*types.Basic)
+	if !ok || bt.Info()&types.IsInteger == 0 || bt.Info()&types.IsUnsigned != 0 {
+		return false
+	}
+	back := 0
+	for i, p := range h.Preds {
+		if !h.Dominates(p) {
+			continue
+		}
+		back++
+		e := phi.Edges[i]
+		if e == phi {
+			continue
+		}
+		inc, ok := e.(*ssa.BinOp)
+		if !ok || inc.Op != token.ADD || inc.X != phi {
+			return false
+		}
+		c, ok := inc.Y.(*ssa.Const)
+		if !ok || c.Value == nil || constant.Sign(c.Value) < 0 {
+			return false
+		}
+	}
+	return back > 0
 }
 
 func phiName(phi *ssa.Phi) string {
